@@ -137,6 +137,15 @@ CHECKS["C05"] = ("DESIGN.md C05",
     "interpreter; result / escaping error value and the event log are compared for all values with "
     "a reference interpreter built on Python exceptions and try/finally.")
 
+CHECKS["C04"] = ("DESIGN.md C04",
+    "10 (thorough 12) template shapes of for/while nests (depth 2, thorough 3), loops in functions, "
+    "functions in loops, if/elif/else chains, with a fault point at every statement position whose "
+    "kind (break/continue/return/error) is symbolic, symbolic element values, loop bounds and "
+    "conditions; compared for all values with a reference interpreter (Python loops). Iteration "
+    "order of lists, sets, map keys/values/entries/destructured pairs and strings over symbolic "
+    "collections. 16 comprehension forms x iterable kinds against their explicit-loop expansion, both "
+    "run by the real interpreter on the same symbolic collection.")
+
 NA = {}
 
 
